@@ -9,7 +9,7 @@ HOOK_COMMITS = ["9deeead"]
 CLAIMED = {
  "C19": ("other",
          "runtime reflection on the regenerated exported API surface (type identity of constant-gated parameters, closedness of safe types) plus dynamic taint probing of every exported function and method",
-         "The registry of exported functions/types/variables/aliases is regenerated from /repo's sources at every check and linked in; the monitor observes in the running binary that every reviewed trusted-text parameter has an unexported library-defined string type that nothing exported exposes, that safe types are closed structs, and that no exported function or method returns a safe-type value containing a hostile caller string verbatim; ParseFS patterns are checked for confinement. That the compiler rejects non-constant arguments is inferred from the observed types under the Go specification (not observable at run time).",
+         "The registry of exported functions/types/variables/aliases is regenerated from /repo's sources at every check and linked in; the monitor observes in the running binary that every reviewed trusted-text parameter has an unexported library-defined string type that nothing exported exposes, that safe types are closed structs, and that no exported function or method returns a safe-type value containing a hostile caller string verbatim; ParseFS patterns are checked for confinement. That the compiler rejects non-constant arguments is inferred from the observed types under the Go specification (not observable at run time); the harness also contains, and executes without reflection, the generic-helper program that defeats this gating on Go >= 1.18 (known finding K27).",
          "Trusted: Go assignability/export rules (stated assumption); policy/api_surface.json (reviewed list). A compile-time property cannot be observed by executing code; only its run-time-visible premises are.",
          "DESIGN.md §5 C19"),
  "C09": ("exploration",
